@@ -99,7 +99,7 @@ pub fn judge1(call: usize, x: [f64; 2], l: Option<&mut Local>) -> Verdict {
     if vd.is_fail() {
         // region vocabulary for known findings: how close is x to -1 ?
         let d = v.add_exact(&Bf::from_i64(1));
-        let tag = if d.msb() < -40 { "one_plus_x_below_2^-40" } else { "other" };
+        let tag = if d.msb() < -1021 { "one_plus_x_below_2^-1021" } else if d.msb() < -40 { "one_plus_x_below_2^-40" } else { "other" };
         return vd.with_region(&[tag]);
     }
     vd
@@ -213,6 +213,14 @@ pub fn alphabet_1p(quick: bool) -> Vec<[f64; 2]> {
         // x -> -1 from above
         let h = -1.0 + 2f64.powi(-j.min(53));
         v.extend(with_los(h, &[0, 10], &[0, (1u64 << 52) - 1], &[]));
+    }
+    // x = (-1, t): 1 + x = t for every binade of t down to the smallest subnormal
+    for j in 54..=1074 {
+        let t = if j <= 1022 { 2f64.powi(-j) } else { tfref::big::pow2_f64(-j) };
+        v.push([-1.0, t]);
+        if j < 1022 {
+            v.push([-1.0, t * 1.7320508075688772]);
+        }
     }
     // pre-images of the exp_m1 strata: x = expm1(k/4 + d), and a linear ladder over (-1, 4]
     for k in (-160..=2400i64).step_by(if quick { 3 } else { 1 }) {
